@@ -62,6 +62,38 @@ def run(ctx):
     # (b) the file reader + generic accessors on mutated files: outcome compared up to the exception class
     for i, m in enumerate(muts):
         loose.append({"id": "m%d" % i, "script": ["F read " + (m.hex() or "-")], "expect": None, "meta": {"kind": "reader/mutant"}})
+    # (e) inputs longer than the decoder window (65535 bytes): truncated inside a long string, length fields inflated beyond the input
+    big = []
+    for k in range(3 if tier == "quick" else 20):
+        h = histgen.gen_history(sch, rng, nops=6, rotations=False, maxi=10000)
+        for o in h["ops"]:
+            if o[0] == "mm": o[2][6] = bytes([65 + k]) * rng.choice([70000, 140000])
+            if o[0] == "qr" and o[2][23] is not None: o[2][23] = bytes([97 + k]) * 66000
+        h["pre"][3] = [histgen.gen_bp(sch, rng, masks=(histgen.ALL_QR_BITS, histgen.ALL_SIG_BITS, 3, 3), tps=1000, maxi=10000)]
+        h["ops"] = [o for o in h["ops"] if o[0] in ("qr", "aec", "mm")]
+        h["ops"].append(("mm", None, [[5, 1], None, None, None, None, None, bytes([48 + k]) * 70000]))
+        h["ops"].append(("wb",))
+        big.append(("b%d" % k, histgen.to_script(sch, h, read_back=False)))
+    bimpl, _, _ = common.run_both(big, ctx["impl"]["drv"], ctx["mdl"], batch=1, impl_only=True)
+    n = 0
+    for cid, _ in big:
+        outs = [l for l in bimpl[cid] if l.startswith("out ") and l[4:] != "-"]
+        if not outs: continue
+        data = bytes.fromhex(outs[-1][4:])
+        W = 65535
+        variants = [data[:W + d] for d in (1, 100, 5000) if W + d < len(data)] + [data[:2 * W + 7]]
+        # inflate the declared length of every long definite string (head 5a/7a + 4 bytes) and cut the input
+        for marker in (b"\x5a\x00\x01", b"\x7a\x00\x01"):
+            pos = data.find(marker)
+            if pos >= 0:
+                variants.append(data[:pos] + marker[:1] + b"\x7f\xff\xff\xff" + data[pos + 5: pos + 5 + W + 300])
+                variants.append(data[:pos] + bytes([marker[0] + 1]) + b"\x00\x00\x00\x10\x00\x00\x00\x00" + data[pos + 5: pos + 5 + W + 300])
+        for v in variants:
+            # (compared exactly: running out of input inside a long string must be reported as end of input, nothing else)
+            exact.append({"id": "L%d" % n, "script": ["F read " + v.hex()], "expect": None, "meta": {"kind": "reader/multi-window"}})
+            exact.append({"id": "E%d" % n, "script": ["D new %s %s" % (rng.choice(["ss", "fs"]), v.hex()), "D as", "D ts", "D sk", "D as", "D sk", "D sk", "D u", "D rest"],
+                          "expect": None, "meta": {"kind": "decoder-ops/multi-window"}})
+            n += 1
     # (c) renderers on arbitrary strings (implementation only: no sanitizer report, no crash)
     rend = []
     names = [b"\x14" + b"a" * 19, b"\x01", b"\x03www", b"\x03www\x00", b"\xff", b"\x00", b"", b"\x01a\x3f" + b"b" * 10, b"\x05ab"]
